@@ -8,7 +8,7 @@ Abstraction maps (DESIGN 3.10, kept trivial):
        variations that normalise to the edition)
   atom a,b,c,d,z -> Kappa, Lomax, Mirren, Noxon, Zeta  (no word is a substring of another,
        so Python `in` on the rendered names is set membership of atoms)
-  pg   n -> str(n), NoPage(-1) -> "___" (placeholder, becomes None), NoGroup(-2) -> no page group,
+  pg   n -> str(n), NoPage(-1) -> "_" / "__" / "___" by position (placeholder, becomes None), NoGroup(-2) -> no page group,
        NonNumeric(-3) / Big(-4) -> the text in `id`, Huge(-5) -> 5,000 digits
   pin  n -> "at n", NoPin(-1) -> None, BadPin(-2) -> "at ¶ 10"
 projection: resolution dict -> list of groups, each a list of 1-based input positions
@@ -51,7 +51,7 @@ def make(sym, pos):
         rep, vol = RV[sym["rv"]]
         found = VARIANT[rep] if pos % 2 == 1 else None
         if k == "fc":
-            pg = "___" if sym["pg"] == -1 else str(sym["pg"])
+            pg = "_" * (1 + pos % 3) if sym["pg"] == -1 else str(sym["pg"])      # a placeholder of one, two or three underscores
             if sym["pg"] in (-3, -4, -5):           # a page identified by its text (NonNumeric / Big / Huge)
                 pg = "1" * 5000 if sym["id"] == "huge" else sym["id"]
             md = {"plaintiff": name(sym["pl"]), "defendant": name(sym["df"]), "year": "1999",
@@ -67,7 +67,7 @@ def make(sym, pos):
                         {"chapter": "1", "section": sec}, {"year": "1999"})
     if k == "fj":
         vol = {"j1": "1", "j2": "2"}[sym["id"]]
-        pg = "___" if sym["pg"] == -1 else str(sym["pg"])
+        pg = "_" * (1 + pos % 3) if sym["pg"] == -1 else str(sym["pg"])
         return res_cite(FullJournalCitation, f"{vol} Minn. L. Rev. {pg}", "Minn. L. Rev.",
                         {"volume": vol, "page": pg}, {"year": "1999"})
     if k == "su":
